@@ -6,6 +6,8 @@ import (
 	"math"
 	"sort"
 	"strings"
+	"sync"
+	"sync/atomic"
 
 	"github.com/bfenetworks/bfe/bfe_util/hash_set"
 
@@ -292,6 +294,15 @@ func c20Shrink(c *c20Case, sig string) *c20Case {
 	return cur
 }
 
+var sigCount sync.Map // "prop|sig" -> *int64
+
+// sigFirstFew is true for the first two occurrences of a signature: only those
+// are worth shrinking, vkit drops the witnesses of later ones.
+func sigFirstFew(prop, sig string) bool {
+	v, _ := sigCount.LoadOrStore(prop+"|"+sig, new(int64))
+	return atomic.AddInt64(v.(*int64), 1) <= 2
+}
+
 func c20Check(r *vkit.Run, c *c20Case, shrink bool) {
 	var st c20Stats
 	var viols []c20Viol
@@ -300,6 +311,10 @@ func c20Check(r *vkit.Run, c *c20Case, shrink bool) {
 	}
 	for _, v := range viols {
 		w, what := c, v.What
+		if shrink && !sigFirstFew("C20", v.Sig) {
+			r.Violation(v.Sig, what, nil) // counted only: vkit keeps the first two witnesses per signature
+			continue
+		}
 		if shrink && v.At >= 0 {
 			w = c20Shrink(&c20Case{Cfg: c.Cfg, Universe: c.Universe, Ops: c.Ops[:v.At+1]}, v.Sig)
 			var st2 c20Stats
